@@ -71,7 +71,8 @@ def tags_for(R):
             parts = q.split("::")
             for k in range(1, len(parts)):
                 suf = "::".join(parts[k:])
-                if suf in t and len(parts[k:]) >= 2:
+                # (a free function of a module: `sb::first_header` is the item `first_header`; every part before it names a module)
+                if suf in t and (len(parts[k:]) >= 2 or all(p_ == p_.lower() for p_ in parts[:k])):
                     t[q] = t[suf]
                     break
         if q not in t:
@@ -188,7 +189,7 @@ def conclude(prop, a, cfg, results, twins, stability, kani, seed, t0):
             parts_ = q_.split("::")
             for k_ in range(1, len(parts_)):
                 suf_ = "::".join(parts_[k_:])
-                if suf_ in items_by_q and len(parts_[k_:]) >= 2 and q_ not in items_by_q:
+                if suf_ in items_by_q and (len(parts_[k_:]) >= 2 or all(p_ == p_.lower() for p_ in parts_[:k_])) and q_ not in items_by_q:
                     items_by_q[q_] = items_by_q[suf_]
                     break
         for fn, d in sorted(R.functions.items()):
